@@ -12,19 +12,19 @@ COMPOSITION, part 7: the emulator parameter of the console UI (C22 `EmuOps`/`Emu
 * `provOf ans`       the `StateProvider` of the console after the answers `ans` were typed in;
 * `stepTree`         `Emulator.Step()` with the console as state provider, as the interaction tree C22 expects: the
                      step is replayed with the answers typed so far; the first request not yet answered is the
-                     next prompt.  `honest = true`: the tree is `Emulator.step` as it is (a panic is a panic).
-                     `honest = false` (SCOPED): a replay whose memory accesses leave the domain of C14
-                     (`addr + w ≥ 2^64`) is reported as the error of `Step` instead;
-* `emuOps honest bs cv`   the operations `emulate.New`, `MustIP`, `Step`, `Regs.Values()[key].Width()`,
+                     next prompt.  The tree is `Emulator.step` AS IT IS — since the repair of F45 a memory access
+                     that leaves the address space (`addr + w ≥ 2^64`) is an ordinary error of `Step`, after the
+                     prompts that precede it (there is no "scoped" variant any more);
+* `emuOps bs cv`     the operations `emulate.New`, `MustIP`, `Step`, `Regs.Values()[key].Width()`,
                      `Regs.Store`, `State.Mems[key]`, the register file for the register view;
-* `EGood`            the emulator states that arise: well-formed code (C03 `CodeWF`), `Ready` (C04), a register MAP
-                     (distinct keys, C18), no byte at the top of the address space;
-* `emu_lawful`       EVERY FIELD OF `EmuLawful` for the scoped instance: `step_safe` from C03 `never_panics_step`,
-                     `ip_some` from C03/C04 (`Ready`, `mustIP_spec`), `regs_oneIP` from the map invariant (C18),
-                     `mem_ok` from `ofMem_coh` (C14 + C15 + C16 ⇒ C32), `width_byte` from `expr.Width = uint8`;
-* `honest_panics`    THE OBSTACLE to the unscoped statement: `Emulator.step` — and the real `Emulator.Step`, see the
-                     NOTES — panics on a memory access that reaches the top of the address space; `lb x3,-1(x0)`
-                     is a witness.  `StepNeverPanics` (the field `step_safe`) is FALSE for the honest instance.
+* `EGood`            the emulator states that arise: well-formed code (C03 `CodeWF`, `CodeSW`), `Ready` (C04), a
+                     register MAP (distinct keys, C18), no byte at the top of the address space;
+* `emu_lawful`       EVERY FIELD OF `EmuLawful` for the real emulator: `step_safe` from C03 `never_panics_step`
+                     (unconditional in the accesses), `ip_some` from C03/C04 (`Ready`, `mustIP_spec`), `regs_oneIP`
+                     from the map invariant (C18), `mem_ok` from `ofMem_coh` (C14 + C15 + C16 ⇒ C32), `width_byte`
+                     from `expr.Width = uint8`;
+* `top_access_fails` the former obstacle (F45): `lb x3,-1(x0)` — a one-byte load from `2^64 - 1` — used to panic;
+                     now the step tree of the real emulator is the error leaf.
 -/
 namespace Mltwist.Lemmas.Compose
 open Mltwist Mltwist.State Mltwist.Overlay Mltwist.Emulator Mltwist.UI
@@ -146,29 +146,27 @@ def reqWidth : Req → Nat
   | .reg _ w => w
   | .mem _ _ w => w
 
-/-- the memory accesses of a step of `e` under the provider `p` lie in the domain of C14 (the premise of C03
-`never_panics_step` / C04 `step_shape`) -/
-def DomAt (e : ESt) (p : Provider) : Prop :=
-  ∀ c ins, assocGet Emulator.ipKey e.st.regs = some (.const c) →
-    e.code.lookup (leToNat c % 2 ^ 64) = some ins → StepDom p e.code e.st ins
+/-- the first request of the log of a replay that has no answer yet -/
+def firstOpen (ans : Answers) (log : List Req) : Option Req := log.find? fun r => !(ans.any fun p => p.1 == r)
 
-open Classical in
 /-- `Emulator.Step()` with the console as state provider.  The step is replayed with the answers typed so far
 (`fuel` bounds the number of prompts of one step); the first request of its log that has no answer yet is the
-next prompt (`expr.Width` is `uint8`).  `honest = false`: a replay that leaves the domain of C14 is reported as
-the error of `Step`. -/
-noncomputable def stepTree (honest : Bool) (e : ESt) : Nat → Answers → StepTree ESt
+next prompt (`expr.Width` is `uint8`).  A step that ends in the access error (REPAIR F45) has asked the provider
+as well: its open requests are prompts, then `Step` returns the error and the emulator keeps the answers. -/
+def stepTree (e : ESt) : Nat → Answers → StepTree ESt
   | 0, _ => .fail e
   | fuel + 1, ans =>
-    if honest = false ∧ ¬ DomAt e (provOf ans) then .fail e
-    else
-      match Emulator.step (provOf ans) e.code e.st with
-      | .panic _ => .panic
-      | .err => .fail e
-      | .ok s' _ log =>
-        match log.find? fun r => !(ans.any fun p => p.1 == r) with
-        | none => .done ⟨e.code, s'⟩
-        | some r => .ask (reqWidth r % 256) fun c => stepTree honest e fuel (ans ++ [(r, c)])
+    match Emulator.step (provOf ans) e.code e.st with
+    | .panic _ => .panic
+    | .err => .fail e
+    | .ok s' _ log =>
+      match firstOpen ans log with
+      | none => .done ⟨e.code, s'⟩
+      | some r => .ask (reqWidth r % 256) fun c => stepTree e fuel (ans ++ [(r, c)])
+    | .accessErr s' log _ _ =>
+      match firstOpen ans log with
+      | none => .fail ⟨e.code, s'⟩
+      | some r => .ask (reqWidth r % 256) fun c => stepTree e fuel (ans ++ [(r, c)])
 
 /-- prompts of one step: far beyond what an instruction can ask for -/
 def stepFuel : Nat := 4096
@@ -179,12 +177,12 @@ def regsOf (m : RegMap) : List Render.Reg :=
 
 /-- THE EMULATOR of the console UI over the real emulator model: `bs` the byte memory of the program
 (`memory.NewBytes`), `cv` the code view of the dependency model at the time `emulate` is executed -/
-noncomputable def emuOps (honest : Bool) (bs : List BytesMem.Block) (cv : Emulator.CodeView) : EmuOps ESt where
+def emuOps (bs : List BytesMem.Block) (cv : Emulator.CodeView) : EmuOps ESt where
   init _ ip := ⟨cv, Emulator.new ip (toolState [] bs)⟩
   ip e := match mustIP e.st with
     | .ok a => some a
     | .error _ => none
-  step e := stepTree honest e stepFuel []
+  step e := stepTree e stepFuel []
   regWidth e k := (assocGet (strOf k) e.st.regs).map fun x => x.width % 256
   regStore e k c :=
     match assocGet (strOf k) e.st.regs with
@@ -197,6 +195,7 @@ noncomputable def emuOps (honest : Bool) (bs : List BytesMem.Block) (cv : Emulat
 
 structure EGood (e : ESt) : Prop where
   wf : CodeWF e.code
+  sw : CodeSW e.code
   ready : Ready e.st
   extra : Extra e.st
 
@@ -248,48 +247,56 @@ theorem TreeSafe.mono {σ : Type} {G G' : σ → Prop} (h : ∀ s, G s → G' s)
   | fail hs => exact TreeSafe.fail (h _ hs)
   | ask hw _ ih => exact TreeSafe.ask hw ih
 
-/-- the scoped step tree never panics, ends in good states ON THE SAME CODE and asks for `uint8` widths -/
+/-- the step tree of the real emulator never panics, ends in good states ON THE SAME CODE and asks for `uint8`
+widths — whatever is typed at the prompts, whatever the instruction accesses (C03 `never_panics_step`) -/
 theorem stepTree_safe' (e : ESt) (hg : EGood e) : ∀ (fuel : Nat) (ans : Answers),
-    TreeSafe (fun s => EGood s ∧ s.code = e.code) (stepTree false e fuel ans)
+    TreeSafe (fun s => EGood s ∧ s.code = e.code) (stepTree e fuel ans)
   | 0, _ => TreeSafe.fail ⟨hg, rfl⟩
   | fuel + 1, ans => by
     unfold stepTree
-    by_cases hd : DomAt e (provOf ans)
-    · rw [if_neg (fun h => h.2 hd)]
-      obtain ⟨c, hip, hm⟩ := Props.C03.never_panics_step (provOf ans) e.code hg.ready hg.wf hd
-      cases hl : e.code.lookup (leToNat c % 2 ^ 64) with
-      | none =>
-        rw [hl] at hm
-        simp only at hm
-        rw [hm]
-        exact TreeSafe.fail ⟨hg, rfl⟩
-      | some ins =>
-        rw [hl] at hm
-        obtain ⟨s1, s2, log, rep, hstep, hfill, happ, hready⟩ := hm
-        rw [hstep]
+    obtain ⟨c, hip, hm⟩ := Props.C03.never_panics_step (provOf ans) e.code hg.ready hg.wf hg.sw
+    cases hl : e.code.lookup (leToNat c % 2 ^ 64) with
+    | none =>
+      rw [hl] at hm
+      simp only at hm
+      rw [hm]
+      exact TreeSafe.fail ⟨hg, rfl⟩
+    | some ins =>
+      rw [hl] at hm
+      rcases hm with ⟨s1, s2, log, rep, hstep, hfill, happ, hready⟩ | ⟨s1, log, a, w, hstep, hfill, hready, _⟩
+      · rw [hstep]
         simp only
-        cases hf : log.find? fun r => !(ans.any fun p => p.1 == r) with
+        cases hf : firstOpen ans log with
         | none =>
           simp only
-          refine TreeSafe.done ⟨⟨hg.wf, hready, ?_⟩, rfl⟩
+          refine TreeSafe.done ⟨⟨hg.wf, hg.sw, hready, ?_⟩, rfl⟩
           exact extra_finish (Applied.extra happ (hfill.inv hg.ready.inv) (Fill.extra hfill hg.ready.inv hg.extra))
         | some r =>
           simp only
           exact TreeSafe.ask (by omega) fun c => stepTree_safe' e hg fuel _
-    · rw [if_pos ⟨rfl, hd⟩]
-      exact TreeSafe.fail ⟨hg, rfl⟩
+      · -- the access error (REPAIR F45): the state after the provider fills of the failed step is good again
+        rw [hstep]
+        simp only
+        cases hf : firstOpen ans log with
+        | none =>
+          simp only
+          exact TreeSafe.fail ⟨⟨hg.wf, hg.sw, hready, Fill.extra hfill hg.ready.inv hg.extra⟩, rfl⟩
+        | some r =>
+          simp only
+          exact TreeSafe.ask (by omega) fun c => stepTree_safe' e hg fuel _
 
 theorem stepTree_safe (e : ESt) (hg : EGood e) (fuel : Nat) (ans : Answers) :
-    TreeSafe EGood (stepTree false e fuel ans) :=
+    TreeSafe EGood (stepTree e fuel ans) :=
   TreeSafe.mono (fun _ h => h.1) (stepTree_safe' e hg fuel ans)
 
-/-- ALL THE ASSUMPTIONS OF C22 ON THE EMULATOR, for the scoped instance over the real emulator model:
+/-- ALL THE ASSUMPTIONS OF C22 ON THE EMULATOR, for the real emulator model AS IT IS (REPAIR F45):
 `bs` is the byte memory `memory.NewBytes` made of an image that does not reach the top of the address space, `cv`
 any well-formed code view -/
 theorem emu_lawful {image bs : List BytesMem.Block} (hnb : BytesMem.newBytes image = .ok bs)
-    (hbb : ∀ x, BytesSpec.ofBlocks bs x ≠ none → x + 1 < 2 ^ 64) (cv : Emulator.CodeView) (hwf : CodeWF cv) :
-    EmuLawful (emuOps false bs cv) EGood where
-  init_good _ ip := ⟨hwf, Props.C04.tool_start_ready [] hnb ip, toolState_extra bs hbb ip⟩
+    (hbb : ∀ x, BytesSpec.ofBlocks bs x ≠ none → x + 1 < 2 ^ 64) (cv : Emulator.CodeView) (hwf : CodeWF cv)
+    (hsw : CodeSW cv) :
+    EmuLawful (emuOps bs cv) EGood where
+  init_good _ ip := ⟨hwf, hsw, Props.C04.tool_start_ready [] hnb ip, toolState_extra bs hbb ip⟩
   ip_some e hg := by
     obtain ⟨c, hc⟩ := hg.ready.ipConst
     show (match mustIP e.st with | .ok a => some a | .error _ => none).isSome = true
@@ -304,7 +311,7 @@ theorem emu_lawful {image bs : List BytesMem.Block} (hnb : BytesMem.newBytes ima
     | none => exact hg
     | some x =>
       simp only
-      refine ⟨hg.wf, ⟨inv_regStore hg.ready.inv v (strOf k) _, ?_⟩, ⟨keys_store _ _ _ _ hg.extra.keys, hg.extra.bounded⟩⟩
+      refine ⟨hg.wf, hg.sw, ⟨inv_regStore hg.ready.inv v (strOf k) _, ?_⟩, ⟨keys_store _ _ _ _ hg.extra.keys, hg.extra.bounded⟩⟩
       show assocGet Emulator.ipKey (RegMap.store _ _ _ _) ≠ none
       unfold RegMap.store
       by_cases hkk : Emulator.ipKey = strOf k
@@ -331,56 +338,19 @@ theorem emu_lawful {image bs : List BytesMem.Block} (hnb : BytesMem.newBytes ima
       exact ofMem_ok mem (hg.ready.inv.good.1 _ _ hk) (hg.ready.inv.mems _ _ hk)
         (habs ▸ hg.extra.bounded (strOf k))
 
-/-! ### honest and scoped trees -/
-
-/-- the two trees differ only where a replay leaves the domain of C14 -/
-theorem stepTree_agree (e : ESt) (hg : EGood e) (hdom : ∀ ans, DomAt e (provOf ans)) :
-    ∀ (fuel : Nat) (ans : Answers), stepTree true e fuel ans = stepTree false e fuel ans
-  | 0, _ => rfl
-  | fuel + 1, ans => by
-    have hd := hdom ans
-    unfold stepTree
-    rw [if_neg (fun h => Bool.noConfusion h.1), if_neg (fun h => h.2 hd)]
-    cases hs : Emulator.step (provOf ans) e.code e.st with
-    | panic x => rfl
-    | err => rfl
-    | ok s' rep log =>
-      simp only
-      cases hf : log.find? fun r => !(ans.any fun p => p.1 == r) with
-      | none => rfl
-      | some r =>
-        simp only
-        congr 1
-        funext c
-        exact stepTree_agree e hg hdom fuel _
-
-/-- a panic leaf of the honest tree is a replay that leaves the domain of C14 (C03 `never_panics_step`): the
-honest tree has no other panic -/
-theorem stepTree_panic_dom (e : ESt) (hg : EGood e) (ans : Answers)
-    (h : ∃ x, Emulator.step (provOf ans) e.code e.st = .panic x) : ¬ DomAt e (provOf ans) := by
-  intro hd
-  obtain ⟨x, hx⟩ := h
-  obtain ⟨c, _, hm⟩ := Props.C03.never_panics_step (provOf ans) e.code hg.ready hg.wf hd
-  cases hl : e.code.lookup (leToNat c % 2 ^ 64) with
-  | none => rw [hl] at hm; simp only at hm; rw [hm] at hx; cases hx
-  | some ins =>
-    rw [hl] at hm
-    obtain ⟨_, _, _, _, hstep, _⟩ := hm
-    rw [hstep] at hx
-    cases hx
-
-/-! ### the obstacle: the honest emulator can panic -/
+/-! ### the former obstacle (F45) -/
 
 /-- `lb x3,-1(x0)` at 0x1000: a one-byte load from address `2^64 - 1` -/
 def topBlocks : List (Nat × List UInt8) := [(4096, [0x83, 0x01, 0xf0, 0xff])]
 
 set_option maxRecDepth 100000 in
-/-- `Emulator.step` panics on it (the interval `[2^64 - 1, 0)` handed to the interval tree), from the state the
-tool starts with, whatever the provider: C22's `StepNeverPanics` does not hold for the emulator as it is -/
-theorem honest_panics :
+/-- before the repair of F45 `Emulator.Step` panicked on it (the interval `[2^64 - 1, 0)` handed to the interval
+tree) and C22's `StepNeverPanics` was false for the emulator as it was; now the step is the access error, the
+step tree of the console is the error leaf, and the emulator stays where it was (instruction pointer 0x1000) -/
+theorem top_access_fails :
     (Emulator.liftCode topBlocks).map (fun code =>
-      match Emulator.step (provOf []) code (Emulator.new 4096 (toolState [] [])) with
-      | .panic _ => true
-      | _ => false) = some true := by decide +kernel
+      match stepTree ⟨code, Emulator.new 4096 (toolState [] [])⟩ stepFuel [] with
+      | .fail e => (match mustIP e.st with | .ok ip => some ip | .error _ => none)
+      | _ => none) = some (some 4096) := by decide +kernel
 
 end Mltwist.Lemmas.Compose
